@@ -318,7 +318,11 @@ def refract(n, nprime, S, r):
     # broadcast the square root to 2D, so that fewer very expensive sqrt ops are done
     # then, in the second term, broadcast cosI for compatability with S and r
     # since it is needed there
-    first_term = np.sqrt(1 - musq * (1 - cosIsq))[:, np.newaxis] * r
+    # the transmitted ray continues to the side of the surface the incident ray was
+    # heading for: its normal component has the sign of cosI (rays travelling
+    # against the normal, e.g. in -z after a mirror, are refracted too)
+    sgn = np.where(cosI < 0, -1., 1.)
+    first_term = (sgn * np.sqrt(1 - musq * (1 - cosIsq)))[:, np.newaxis] * r
     second_term = mu * (S - cosI[:, np.newaxis] * r)
     return first_term + second_term
 
